@@ -3,7 +3,7 @@ CONSTANTS
   Sessions = {1, 2}
   MaxOps = 7
   Kinds = {"a", "hash", "num"}
-  DEV = {}
+  WithWrite = FALSE
   Emit = FALSE
 SPECIFICATION Spec
 INVARIANTS NoDup SavedPresent InOrder TsAttached ReloadEq TypeOK
